@@ -46,6 +46,8 @@ ObsContent(o, Cexp) ==
    func |-> [g \in GeneU |-> o.func[g]],
    member |-> [g \in GrpU |-> SeqSet(o.member[g]) \cap AllIds],
    ann |-> [x \in AllIds |-> o.ann[x]], note |-> [x \in AllIds |-> o.note[x]],
+   attr |-> [x \in AllIds |-> [name |-> o.attr[x].name, formula |-> o.attr[x].formula, charge |-> o.attr[x].charge,
+                               subsys |-> o.attr[x].subsys]],
    xcols |-> SeqSet(o.lp.xcols), xrows |-> SeqSet(o.lp.xrows), solver |-> o.solver]
 RulesInSync(o, C) == o.present => \A r \in RxU : (r \in SeqSet(o.rxns) => RuleMatches(C.rule[r], o, r))
 
@@ -70,6 +72,10 @@ SlotDiff(o, C, depth, helper) ==
      \cup (IF \E g \in GrpU : SeqSet(o.member[g]) # C.member[g] THEN {"member"} ELSE {})
      \cup (IF \E x \in AllIds : o.ann[x] # C.ann[x] THEN {"ann"} ELSE {})
      \cup (IF \E x \in AllIds : o.note[x] # C.note[x] THEN {"note"} ELSE {})
+     \cup (IF \E x \in AllIds : o.attr[x].name # C.attr[x].name THEN {"name"} ELSE {})
+     \cup (IF \E x \in AllIds : o.attr[x].formula # C.attr[x].formula THEN {"formula"} ELSE {})
+     \cup (IF \E x \in AllIds : o.attr[x].charge # C.attr[x].charge THEN {"charge"} ELSE {})
+     \cup (IF \E x \in AllIds : C.attr[x].subsys # -1 /\ o.attr[x].subsys # C.attr[x].subsys THEN {"subsys"} ELSE {})
      \cup (IF helper = 0 /\ SeqSet(o.lp.xcols) # C.xcols THEN {"xcols"} ELSE {})
      \cup (IF helper = 0 /\ SeqSet(o.lp.xrows) # C.xrows THEN {"xrows"} ELSE {})
      \cup (IF o.solver # C.solver THEN {"solver"} ELSE {})
@@ -145,6 +151,7 @@ Tags(op, S) ==
   \cup (IF IsModel(S.m[s]) /\ (\E r \in S.m[s].rxns : S.m[s].lb[r] = -INF \/ S.m[s].ub[r] = INF) THEN {"infinite_bound"} ELSE {})
   \cup (IF IsModel(S.m[s]) /\ S.m[s].dir = "min" THEN {"dir_min"} ELSE {})
   \cup (IF IsModel(S.m[s]) /\ (\A r \in RxU : S.m[s].objc[r] = 0) THEN {"empty_objective"} ELSE {})
+  \cup (IF IsModel(S.m[s]) /\ (\E m \in S.m[s].mets : S.m[s].attr[m].charge = 99) THEN {"charge_none"} ELSE {})
   \cup (IF IsModel(S.m[s]) /\ (\E r \in S.m[s].rxns : MetsOfRxn(S.m[s], r) = {}) THEN {"empty_reaction"} ELSE {})
 
 \* ------------------------------------------------------------ (3) the undo-log mechanism (hook events, C03)
